@@ -37,6 +37,7 @@ pub fn shared(prop: &'static str, seed: u64) -> Vec<Scenario> {
         add(Tier::Quick, format!("liq2.{}", p.tag()), "alice partially liquidated by one liquidator, then by a second and a third one in later blocks", 600, 150, Box::new(t_liq2(pc.clone(), false)));
         add(Tier::Quick, format!("liq2.sameblock.{}", p.tag()), "two liquidations by different liquidators in one block", 600, 150, Box::new(t_liq2(pc.clone(), true)));
         add(Tier::Quick, format!("liq-two-same-block.{}", p.tag()), "the liquidator opens its own position and liquidates two traders in that block", 600, 150, Box::new(t_liq_two_same_block(pc.clone())));
+        add(Tier::Quick, format!("two-vamms.{}", p.tag()), "two registered vAMMs: trades, a funding settlement and a liquidation on one, withdraw/close on the other", 600, 150, Box::new(t_two_vamms(pc.clone())));
         // thorough
         add(Tier::Thorough, format!("close.with.{}", p.tag()), d_close, 300, 300, Box::new(t_close(pc.clone(), true)));
         add(Tier::Thorough, format!("close.sym.{}", p.tag()), d_close, 600, 600, Box::new(t_close(p.clone(), false)));
@@ -254,6 +255,25 @@ pub fn generated(prop: &'static str, seed: u64, quick_n: u64, thorough_n: u64) -
         let p = if idx % 5 == 4 { p.native() } else { p };
         let tier = if idx < quick_n { Tier::Quick } else { Tier::Thorough };
         v.push(sc(prop, tier, &format!("{}.gen.{:03}", lc, idx), d, 200, 60, t_gen(p, idx)));
+    }
+    v
+}
+
+/// C01 on engine-driven histories: the vAMM obligations after every engine transaction
+pub fn c01_engine(seed: u64) -> Vec<Scenario> {
+    let prop = "C01";
+    let mut v: Vec<Scenario> = vec![];
+    let d = "engine-driven histories with the C01 obligations (k non-decreasing, base + net position = initial base reserve, failed transaction leaves the vAMM unchanged) checked on the vAMM after every engine transaction";
+    for side in [Buy, Sell] {
+        let p = P::new(prop, side.clone(), seed);
+        let pc = p.clone().concrete_prefix();
+        let sn = p.tag();
+        v.push(sc(prop, Tier::Quick, &format!("c01.engine.open.{}", sn), d, 300, 90, t_open(p.clone())));
+        v.push(sc(prop, Tier::Quick, &format!("c01.engine.opp.{}", sn), d, 400, 90, t_open2(pc.clone(), false)));
+        v.push(sc(prop, Tier::Quick, &format!("c01.engine.close.{}", sn), d, 300, 90, t_close(pc.clone(), false)));
+        v.push(sc(prop, Tier::Quick, &format!("c01.engine.liq.partial.{}", sn), d, 400, 90, t_liq(pc.clone().partial(), 5)));
+        v.push(sc(prop, Tier::Quick, &format!("c01.engine.liq.profitable.{}", sn), d, 400, 90, t_liq_profitable(pc.clone())));
+        v.push(sc(prop, Tier::Thorough, &format!("c01.engine.opp.sym.{}", sn), d, 1500, 600, t_open2(p.clone(), false)));
     }
     v
 }
